@@ -47,7 +47,7 @@ pub fn run(tier: &str, seed: u64) -> i32 {
             }
         }
     });
-    let partial = match run_remote("C13", Backend::Python, seed, thorough, &descs, &kf, 8, &|_w| PyTarget::new(&dir)) {
+    let partial = match run_remote("C13", Backend::Python, seed, if thorough { (4000, 1500) } else { (600, 200) }, &descs, &kf, 8, &|_w| PyTarget::new(&dir)) {
         Ok(p) => p,
         Err(e) => {
             eprintln!("infrastructure: {}", e.0);
